@@ -1,7 +1,8 @@
 # fam_reqcodec.py — REQ serialization: C09 (round trip), C10 (documented layout), C11 (truncated / corrupted images) for
 # req_sketch<int64_t>, req_sketch<double> and req_sketch<float> (integer values).  Model coq/ReqCodecDefs.v (enc / dec_core / dec,
 # theorems Properties_C09_req.v, Properties_C10_req.v, Properties_C11_req.v) against serialize() / deserialize(bytes) /
-# deserialize(istream) of the code through harness/drv_reqcodec.cpp (extract/Extract_reqcodec.v, runner crun).
+# deserialize(istream) of the code through harness/drv_reqcodec.cpp (extract/Extract_reqcodec.v, runner crun); the harness INCLUDES
+# harness/drv_req.cpp, so the sketch operations (and their output format) are always those of the req family.
 #
 # Mutations confirmed caught (scratch worktree of /repo, VERIF_REPO, VERIF_SEED=1, ./check C09 / C10 / C11 with this family alone):
 #   r1 serialize(bytes): high-rank flag dropped                          -> C09, C10: req_bytes_differ_from_stream (+ image differs from the model)
@@ -289,7 +290,8 @@ def oracle_c11(case, irecs, mrecs):
             fail('req_valid_variant_refused', 'the %s reader refused an image whose byte %d was replaced by %d (a valid variant)' % (rd, info[0], info[1]), i)
     return fails
 
-FAM = dict(name='reqcodec', harness='drv_reqcodec.cpp', extract='Extract_reqcodec.v', model='model_reqcodec', run='crun')
+FAM = dict(name='reqcodec', harness='drv_reqcodec.cpp', extract='Extract_reqcodec.v', model='model_reqcodec', run='crun',
+           ocaml_flags='-rectypes -thread -package coq-core.kernel -linkpkg', cxx_flags='-ffp-contract=off')   # ReqDefs carries binary64 rank bounds since C08-5
 FAMILIES_C09 = [dict(FAM, gen=gen_c09, oracle=oracle_c09)]
 FAMILIES_C10 = [dict(FAM, gen=gen_c10, oracle=oracle_c10)]
 FAMILIES_C11 = [dict(FAM, gen=gen_c11, oracle=oracle_c11)]
